@@ -13,7 +13,7 @@ from props import c01
 
 LEVEL = "model_checking"
 SUMS = ("histories", "steps", "tx_executed", "tx_failed", "tx_state_observations", "events_compared", "commits", "dry_run_commits",
-        "reverts", "restarts", "restarts_app_ahead", "roots_compared", "state_dumps_compared", "histories_aborted_after_violation")
+        "reverts", "restarts", "restarts_app_ahead", "restarts_app_ahead_2_or_more", "engine_tips_lost", "roots_compared", "state_dumps_compared", "histories_aborted_after_violation")
 
 
 def interesting(h):
@@ -118,6 +118,8 @@ def run(ctx):
         runs.append(("seqA", "StateMachine_tx", dict(Plan="PlanSeqA", DumpEvery=16), dict(workers=8), True))
         # two transactions in one block
         runs.append(("2txA", "StateMachine_tx", dict(Plan="Plan2TxA", DumpEvery=20), dict(workers=10), True))
+        # three blocks, the engine loses one or two tips (application 1..3 blocks ahead), recovery, revert|new block
+        runs.append(("lose", "StateMachine_sim", dict(Plan="PlanLoseS"), dict(workers=1, simulate=150, depth=12), False))
         runs.append(("sim", "StateMachine_sim", dict(Plan="PlanSim14"), dict(workers=1, simulate=300, depth=16), False))
     else:
         runs.append(("tx2", "StateMachine_tx", dict(Plan="PlanTx2", DumpEvery=1), dict(workers=8), True))
@@ -125,6 +127,7 @@ def run(ctx):
         runs.append(("tx4", "StateMachine_tx", dict(Plan="PlanTx4", Presets="Presets1", DumpEvery=160), dict(workers=12, timeout=2400), True))
         runs.append(("seqB", "StateMachine_tx", dict(Plan="PlanSeqB", DumpEvery=80), dict(workers=12), True))
         runs.append(("2txB", "StateMachine_tx", dict(Plan="Plan2TxB", DumpEvery=80), dict(workers=12), True))
+        runs.append(("lose", "StateMachine_sim", dict(Plan="PlanLoseS"), dict(workers=1, simulate=1500, depth=12), False))
         runs.append(("sim", "StateMachine_sim", dict(Plan="PlanSim22"), dict(workers=1, simulate=2500, depth=24), False))
     tot = {k: 0 for k in SUMS}
     counts = {}
@@ -155,13 +158,13 @@ def run(ctx):
             name, res["histories"], res["steps"], res["tx_executed"], res["tx_failed"], res["commits"], res["dry_run_commits"],
             res["reverts"], res["restarts"], res["restarts_app_ahead"], res["roots_compared"],
             json.dumps(res.get("violation_counts") or {}, sort_keys=True)))
-    if not ctx.violations and (min(tot["tx_failed"], tot["commits"], tot["reverts"], tot["restarts_app_ahead"], tot["dry_run_commits"]) < 50 or tot["tx_state_observations"] < 1000):
+    if not ctx.violations and (min(tot["tx_failed"], tot["commits"], tot["reverts"], tot["restarts_app_ahead"], tot["restarts_app_ahead_2_or_more"], tot["dry_run_commits"]) < 50 or tot["tx_state_observations"] < 1000):
         raise Inconclusive("the histories did not exercise failing transactions / commits / reverts / recoveries enough: vacuous")
     cov = dict(traces_validated_against_impl=tot["histories"], samples=samples, replayed_steps=tot["steps"],
                transactions_executed=tot["tx_executed"], failing_transactions_executed=tot["tx_failed"],
                state_observations_after_command=tot["tx_state_observations"], events_compared=tot["events_compared"],
                commits=tot["commits"], dry_run_commits=tot["dry_run_commits"], reverts=tot["reverts"], restarts=tot["restarts"],
-               restarts_with_application_ahead=tot["restarts_app_ahead"], roots_compared=tot["roots_compared"],
+               restarts_with_application_ahead=tot["restarts_app_ahead"], restarts_with_application_two_or_more_ahead=tot["restarts_app_ahead_2_or_more"], roots_compared=tot["roots_compared"],
                state_db_dumps_compared=tot["state_dumps_compared"], distinct_committed_states_max_per_run=distinct,
                histories_cut_short_after_a_violation=tot["histories_aborted_after_violation"],
                histories_continued_in_degraded_mode=degraded, violation_counts=counts,
@@ -174,7 +177,7 @@ def run(ctx):
         "SHA-256 is injective on the terms that occur",
         "a command is a straight-line script (<= 4 writes, <= 3 events); reads do not influence it",
         "the scripted module observes the stores in AfterCommandExecute (and, for half of the histories, reads them in BeforeCommandExecute)",
-        "the application is at most one block ahead of the engine at a restart; an application behind the engine is out of scope",
+        "the application is at most three blocks ahead of the engine at a restart (one by a crash between the two commits, two by an engine that lost its tip); an application behind the engine is out of scope",
         "where a real call panics on the engine's request shape the history is replayed once more with the deviation stated in the violation text "
         "(Consensus supplied to ExecuteTransaction; an execution context initialised before Init) so that the remaining defects are still observed",
         "in-memory pebble (no torn writes): a crash loses exactly the block in execution or the engine's commit"])
